@@ -737,8 +737,8 @@ example : authDecision demoCfg { demoCtx.conn 1 with name := some (str "u2"), pa
     = .decided true true := by decide
 -- `welcome_uses_config`: the first two lines
 example : ((welcomeBurst demoCfg (demoCtx.conn 1) (str "+iw") demoCtx).direct.take 2)
-    = [str ":srv.x 001 al :Welcome to the Net Network, al!~u@h",
-       str ":srv.x 002 al :Your host is srv.x, running version irc-harness-0.1.0"] := by decide
+    = [(str ":srv.x " ++ Reply.RplWelcome001 (client := str "al") (networkname := str "Net") (nick := str "al") (user := str "u") (host := str "h")),
+       (str ":srv.x " ++ Reply.RplYourHost002 (client := str "al") (servername := str "srv.x") (version := str "irc-harness-0.1.0"))] := by decide
 -- `support_tokens_use_config`
 example : str "MAXCHANNELS=1" ∈ supportTokens demoCfg ∧ str "CHANLIMIT=&#:1" ∈ supportTokens demoCfg ∧
     str "NETWORK=Net" ∈ supportTokens demoCfg := by decide
